@@ -23,6 +23,25 @@ func CheckSlotSpan(slotAfter func(delta time.Duration) common.Slot, slot common.
 	return nil
 }
 
+// CheckAttestationSlot checks if an attestation or aggregate of the given slot can be propagated at the current time,
+// with MAXIMUM_GOSSIP_CLOCK_DISPARITY margin in time.
+// Before Deneb the slot has to be within the last ATTESTATION_PROPAGATION_SLOT_RANGE slots.
+// From Deneb on (EIP-7045) the slot has to be the current slot or earlier, and its epoch the current or previous epoch.
+func CheckAttestationSlot(spec *common.Spec, slotAfter func(delta time.Duration) common.Slot, slot common.Slot) error {
+	if spec.SlotToEpoch(slotAfter(0)) < spec.DENEB_FORK_EPOCH {
+		return CheckSlotSpan(slotAfter, slot, ATTESTATION_PROPAGATION_SLOT_RANGE)
+	}
+	// check minimum, with account for clock disparity
+	if minEpoch := spec.SlotToEpoch(slotAfter(-MAXIMUM_GOSSIP_CLOCK_DISPARITY)).Previous(); spec.SlotToEpoch(slot) < minEpoch {
+		return fmt.Errorf("slot %d is too old, minimum epoch is %d", slot, minEpoch)
+	}
+	// check maximum, with account for clock disparity
+	if maxSlot := slotAfter(MAXIMUM_GOSSIP_CLOCK_DISPARITY); slot > maxSlot {
+		return fmt.Errorf("slot %d is too new, maximum slot is %d", slot, maxSlot)
+	}
+	return nil
+}
+
 // SyncCommitteeForSlot returns the sync committee whose members sign in the given slot,
 // from the epochs context of a state at that slot. Committees assigned to a slot sign for the previous slot:
 // in the last slot of a sync committee period it is the next sync committee that signs,
